@@ -329,4 +329,48 @@ def asksOK (c : Cfg) : Bool :=
 def isPayload (L : Levels) (line : Bytes) : Bool :=
   L.all fun l => line != l.escalate && line != l.deescalate
 
+/-! ## specification side: what the property says the device must have received -/
+
+def escCmd (L : Levels) (a : Bytes) : Bytes :=
+  match find? L a with
+  | some l => l.escalate
+  | none => []
+
+def deescCmd (L : Levels) (a : Bytes) : Bytes :=
+  match find? L a with
+  | some l => l.deescalate
+  | none => []
+
+/-- lines of one hop `a → b` of the tree path: the deescalate command of `a` when `b` is its
+parent; otherwise the escalate command of the child `b`, followed by the secret when the device
+asks for it; each logged with the mode the device was in (`a`) -/
+def stepEntries (c : Cfg) (a b : Bytes) : List (Bytes × Bytes) :=
+  if par c.L a = some b then [(a, deescCmd c.L a)]
+  else (a, escCmd c.L b) :: (if c.asks b then [(a, c.secret)] else [])
+
+/-- the complete `(mode, line)` log of one acquisition along the path: one bare return (prompt
+probe) per node, and the hop lines in between -/
+def expectedLog (c : Cfg) : List Bytes → List (Bytes × Bytes)
+  | [] => []
+  | [a] => [(a, [])]
+  | a :: b :: t => (a, []) :: (stepEntries c a b ++ expectedLog c (b :: t))
+
+/-- `a, parent a, …, root` -/
+def chainUp (L : Levels) : Nat → Bytes → List Bytes
+  | 0, a => [a]
+  | f + 1, a =>
+    match par L a with
+    | some p => a :: chainUp L f p
+    | none => [a]
+
+def splitCommon : List Bytes → List Bytes → Option Bytes → Option Bytes × List Bytes × List Bytes
+  | x :: xs, y :: ys, lca => if x = y then splitCommon xs ys (some x) else (lca, x :: xs, y :: ys)
+  | xs, ys, lca => (lca, xs, ys)
+
+/-- the tree path computed without any search: up from `a` to the lowest common ancestor, then
+down to `b` (specification side of the driver; independent of `dfs`) -/
+def treePath (L : Levels) (a b : Bytes) : List Bytes :=
+  match splitCommon (chainUp L L.length a).reverse (chainUp L L.length b).reverse none with
+  | (lca, ra, rb) => ra.reverse ++ lca.toList ++ rb
+
 end Scrapli.Priv
